@@ -477,6 +477,33 @@ func c14CLI(ctx *core.Ctx, res *core.Result, intn func(int) int, pt string, file
 		}
 		res.Sig(pi, gr.name, "cli")
 	}
+	// the same invocation again and again, each in a fresh process: bytes, diagnostics and exit status are a
+	// function of the inputs (map iteration order, error collection order, ... must not show)
+	var firstOut map[int]string
+	var firstErr string
+	var firstExit int
+	for k := 0; k < 3; k++ {
+		sub := fmt.Sprintf("again%d", k)
+		o, cr := run(sub, groups[0].args, allIdx)
+		stderr := strings.ReplaceAll(string(cr.Stderr), filepath.Join(base, sub), "<dir>")
+		if k == 0 {
+			firstOut, firstErr, firstExit = o, stderr, cr.Exit
+			continue
+		}
+		for _, i := range allIdx {
+			if o[i] != firstOut[i] {
+				res.Violate("C14/repeated-run-differs", fmt.Sprintf("run %d of the same invocation gives other bytes for %s", k, names[i]),
+					map[string]string{"p.patch": pt, "in.go": files[i], "first.go": firstOut[i], "actual.go": o[i]})
+				return
+			}
+		}
+		if stderr != firstErr || cr.Exit != firstExit {
+			res.Violate("C14/repeated-run-differs", fmt.Sprintf("run %d of the same invocation reports differently (exit %d vs %d)", k, cr.Exit, firstExit),
+				map[string]string{"p.patch": pt, "stderr-first.txt": firstErr, "stderr-again.txt": stderr})
+			return
+		}
+	}
+	res.Ob("repeated-invocations-compared", 2)
 	ms, _ := filepath.Glob(raceLog + "*")
 	for _, m := range ms {
 		b, _ := os.ReadFile(m)
